@@ -150,7 +150,7 @@ Section Proofs.
     is_closed cs c = true -> is_closed (conn_step cs o) c = true.
   Proof.
     unfold is_closed. intro H.
-    destruct o as [c0 b sd|c0 mid r t|c0 r t| |c0|c0|c0|c0]; simpl; try exact H.
+    destruct o as [c0 b sd|c0 mid r t|c0 r t| |c0|c0|c0|c0|]; simpl; try exact H.
     - destruct (aget c0 cs) eqn:E; [exact H|]. destruct (sid_live cs sd); [exact H|]. rewrite aget_aset_dec.
       destruct (Z.eqb_spec c c0); [subst; rewrite E in H; discriminate | exact H].
     - destruct r as [ty m|k]; [|exact H]. destruct m; try exact H.
@@ -172,7 +172,7 @@ Section Proofs.
     is_open (conn_step cs o) c = is_open cs c.
   Proof.
     intros N1 N2. unfold is_open.
-    destruct o as [c0 b sd|c0 mid r t|c0 r t| |c0|c0|c0|c0]; simpl; try reflexivity.
+    destruct o as [c0 b sd|c0 mid r t|c0 r t| |c0|c0|c0|c0|]; simpl; try reflexivity.
     - destruct (aget c0 cs) eqn:E; [reflexivity|]. destruct (sid_live cs sd); [reflexivity|]. rewrite aget_aset_dec.
       destruct (Z.eqb_spec c c0); [subst; exfalso; eapply N1; reflexivity | reflexivity].
     - destruct r as [ty m|k]; [|reflexivity]. destruct m; try reflexivity.
@@ -195,7 +195,7 @@ Section Proofs.
     rewrite cview_snoc, in_app_iff. intro H.
     destruct (is_closed (cview r) c) eqn:E; [left; auto|]. right. simpl. left.
     unfold is_closed in *.
-    destruct o as [c0 b sd|c0 mid rt t|c0 rt t| |c0|c0|c0|c0]; simpl in H; try congruence.
+    destruct o as [c0 b sd|c0 mid rt t|c0 rt t| |c0|c0|c0|c0|]; simpl in H; try congruence.
     - destruct (aget c0 (cview r)) eqn:G; [congruence|]. destruct (sid_live (cview r) sd); [congruence|]. rewrite aget_aset_dec in H.
       destruct (Z.eqb_spec c c0); [simpl in H; discriminate | congruence].
     - destruct rt as [ty m|k]; [|congruence]. destruct m; try congruence.
@@ -221,7 +221,7 @@ Section Proofs.
     destruct (aget c (conn_step (cview ops) o)) as [cn'|] eqn:G.
     - intro H. destruct (c_open cn'); [reflexivity | discriminate].
     - intros _. exfalso.
-      destruct o as [d b sd|d mid rt t|d rt t| |d|d|d|d]; simpl in G; try congruence.
+      destruct o as [d b sd|d mid rt t|d rt t| |d|d|d|d|]; simpl in G; try congruence.
       + destruct (aget d (cview ops)); [congruence|]. destruct (sid_live (cview ops) sd); [congruence|]. rewrite aget_aset_dec in G.
         destruct (Z.eqb c d); congruence.
       + destruct rt as [ty m|k]; [|congruence]. destruct m; try congruence.
@@ -237,7 +237,7 @@ Section Proofs.
   Lemma conn_step_keeps cs o c : aget c cs <> None -> aget c (conn_step cs o) <> None.
   Proof.
     intro H.
-    destruct o as [d b sd|d mid rt t|d rt t| |d|d|d|d]; simpl; try exact H.
+    destruct o as [d b sd|d mid rt t|d rt t| |d|d|d|d|]; simpl; try exact H.
     - destruct (aget d cs); [exact H|]. destruct (sid_live cs sd); [exact H|]. rewrite aget_aset_dec. destruct (Z.eqb c d); [discriminate | exact H].
     - destruct rt as [ty m|k]; [|exact H]. destruct m; try exact H.
       destruct (Z.eqb ty front_type && is_open cs d); [|exact H].
@@ -254,7 +254,7 @@ Section Proofs.
 
   Lemma op_recs_open cs o r : In r (op_recs cs o) -> is_open cs (r_c r) = true.
   Proof.
-    destruct o as [d b sd|d mid rt t|d rt t| |d|d|d|d]; simpl; try tauto;
+    destruct o as [d b sd|d mid rt t|d rt t| |d|d|d|d|]; simpl; try tauto;
       destruct (is_open cs d) eqn:E; simpl; try tauto; intros [H|[]]; subst r; exact E.
   Qed.
 
@@ -463,7 +463,7 @@ Section Proofs.
         { unfold fverdict. rewrite RT. reflexivity. }
         set (ph := if negb (Z.eqb (f_mid f) 0)
                    then match completes (f_m f) with
-                        | CReply => PToFront (f_sid f) (f_mid f) false (PReply (f_i f) (f_tag f))
+                        | CReply => PToFront (f_sid f) (f_mid f) false (reply_payload (f_m f) (f_i f) (f_tag f))
                         | CErr => PToFront (f_sid f) (f_mid f) true PNone
                         | CSilent => PSilent
                         end
@@ -602,7 +602,7 @@ Section Proofs.
     | _ => False
     end -> conn_step cs o = cs.
   Proof.
-    destruct o as [d b sd|d mid rt t|d rt t| |d|d|d|d]; try tauto; intro H; simpl;
+    destruct o as [d b sd|d mid rt t|d rt t| |d|d|d|d|]; try tauto; intro H; simpl;
       (destruct rt as [ty m|k]; [|reflexivity]); destruct m; try reflexivity;
       rewrite H, andb_false_r; reflexivity.
   Qed.
@@ -617,7 +617,7 @@ Section Proofs.
     intro H. unfold Spec.verdict_of.
     destruct (Z.eqb (rtype r) front_type) eqn:T; [reflexivity|].
     assert (E : conn_step cs o = cs).
-    { destruct o as [d b sd|d mid rt t|d rt t| |d|d|d|d]; try tauto; destruct H as [H1 H2]; subst d rt; simpl;
+    { destruct o as [d b sd|d mid rt t|d rt t| |d|d|d|d|]; try tauto; destruct H as [H1 H2]; subst d rt; simpl;
         (destruct r as [ty m|k]; [|reflexivity]); destruct m; try reflexivity;
         simpl in T; rewrite T; reflexivity. }
     rewrite E. reflexivity.
@@ -835,7 +835,7 @@ Section Proofs.
     assert (ND0 : NoDup (map r_tag (ledger ops))).
     { apply ledger_tags_nodup. rewrite tags_of_app in ND. eapply NoDup_app_l; eauto. }
     assert (CS := inv_conns _ _ I).
-    destruct o as [c b sd|c mid r tag|c r tag| |c|c|c|c]; unfold Model.op_step.
+    destruct o as [c b sd|c mid r tag|c r tag| |c|c|c|c|]; unfold Model.op_step.
     - apply inv_conn_only; [reflexivity | exact I].
     - rewrite CS. destruct (is_open (cview ops) c) eqn:O.
       + rewrite <- CS. apply inv_request; auto.
@@ -850,6 +850,7 @@ Section Proofs.
         rewrite (conn_step_req_noop (conns s) (ONotify c r tag)) in H; [|rewrite CS; exact O].
         destruct s. exact H.
     - apply inv_advance; assumption.
+    - apply inv_conn_only; [reflexivity | exact I].
     - apply inv_conn_only; [reflexivity | exact I].
     - apply inv_conn_only; [reflexivity | exact I].
     - apply inv_conn_only; [reflexivity | exact I].
@@ -883,7 +884,7 @@ Section Proofs.
           with_phase f
             (if negb (Z.eqb (f_mid f) 0) then
                match completes (f_m f) with
-               | CReply => PToFront (f_sid f) (f_mid f) false (PReply (f_i f) (f_tag f))
+               | CReply => PToFront (f_sid f) (f_mid f) false (reply_payload (f_m f) (f_i f) (f_tag f))
                | CErr => PToFront (f_sid f) (f_mid f) true PNone
                | CSilent => PSilent
                end
@@ -1036,7 +1037,7 @@ Section Proofs.
   Lemma conn_step_open_keep cs o c :
     is_open cs c = true -> o <> OClose c -> is_open (conn_step cs o) c = true.
   Proof.
-    intros O N. destruct o as [d b sd|d mid rt t|d rt t| |d|d|d|d];
+    intros O N. destruct o as [d b sd|d mid rt t|d rt t| |d|d|d|d|];
       try (rewrite conn_step_open_other; [exact O | intros; discriminate | exact N]).
     simpl. destruct (aget d cs) eqn:G; [exact O|]. destruct (sid_live cs sd); [exact O|].
     unfold is_open. rewrite aget_aset_dec. destruct (Z.eqb_spec c d); [reflexivity | exact O].
@@ -1316,13 +1317,14 @@ Section Proofs.
       assert (H' : (c1, t, Resp m e p) = (c, tag, Resp mid e1 p1)).
       { destruct v; simpl in H; try tauto; destruct H as [H|[]]; symmetry; exact H. }
       inv H'. split; [exact R0 | exact EX]. }
-    destruct o as [c b sd|c mid r tag|c r tag| |c|c|c|c]; unfold Model.op_step.
+    destruct o as [c b sd|c mid r tag|c r tag| |c|c|c|c|]; unfold Model.op_step.
     - apply exact_mono. exact X.
     - destruct (is_open (conns s) c) eqn:O; [|apply exact_mono; exact X].
       apply REQ; [left; reflexivity | rewrite <- CS; exact O].
     - destruct (is_open (conns s) c) eqn:O; [|apply exact_mono; exact X].
       apply REQ; [right; split; reflexivity | rewrite <- CS; exact O].
     - apply exact_advance; auto.
+    - apply exact_mono. exact X.
     - apply exact_mono. exact X.
     - apply exact_mono. exact X.
     - apply exact_mono. exact X.
@@ -1404,7 +1406,7 @@ Section Proofs.
       - destruct (completes m); simpl in H; try tauto; destruct H as [H|[]]; subst x; exact O.
       - destruct H as [H|[]]; subst x; exact O. }
     destruct e as [o|k]; simpl.
-    - destruct o as [c b sd|c mid r tag|c r tag| |c|c|c|c]; unfold Model.op_step; try exact NIL.
+    - destruct o as [c b sd|c mid r tag|c r tag| |c|c|c|c|]; unfold Model.op_step; try exact NIL.
       + destruct (is_open (conns s) c) eqn:O; [|exact NIL]. apply REQ; [exact O|].
         apply conn_step_open_keep; [exact O | discriminate].
       + destruct (is_open (conns s) c) eqn:O; [|exact NIL]. apply REQ; [exact O|].
@@ -1424,7 +1426,7 @@ Section Proofs.
   Proof.
     intro H. destruct e as [o|k]; simpl.
     - assert (G : is_closed (conn_step (conns s) o) c = true) by (apply conn_step_closed; exact H).
-      destruct o as [d b sd|d mid r tag|d r tag| |d|d|d|d]; unfold Model.op_step; try exact G; try exact H.
+      destruct o as [d b sd|d mid r tag|d r tag| |d|d|d|d|]; unfold Model.op_step; try exact G; try exact H.
       + destruct (is_open (conns s) d) eqn:O; [|exact H]. rewrite request_effect; [exact G|].
         apply conn_step_open_keep; [exact O | discriminate].
       + destruct (is_open (conns s) d) eqn:O; [|exact H]. rewrite request_effect; [exact G|].
@@ -1519,7 +1521,7 @@ Section Proofs.
   Proof.
     intros ND H. destruct (inv_out _ _ (inv_run evs ND) _ _ _ _ _ H) as [NZ [v [R _]]].
     destruct (ledger_origin _ _ R) as [pre [o [post [E X]]]].
-    destruct o as [c b sd|c mid r tag|c r tag| |c|c|c|c]; simpl in X; try tauto;
+    destruct o as [c b sd|c mid r tag|c r tag| |c|c|c|c|]; simpl in X; try tauto;
       destruct (is_open (cview pre) c) eqn:O; simpl in X; try tauto; destruct X as [X|[]]; inv X.
     - exists pre, post, r. split; [exact E | exact O].
     - exfalso. apply NZ. reflexivity.
@@ -1530,7 +1532,7 @@ Section Proofs.
 
   Definition is_proto (e : ev) : bool :=
     match e with
-    | EOp (OHandshake _) | EOp (OAck _) | EOp (OHeartbeat _) => true
+    | EOp (OHandshake _) | EOp (OAck _) | EOp (OHeartbeat _) | EOp OProto => true
     | _ => false
     end.
 
